@@ -101,7 +101,13 @@ impl<T: Message + Debug + PartialEq + 'static> Val for T {
 
     fn size(&self, wp: WP) -> usize {
         match wp {
-            WP::Binary | WP::Unchecked => Message::size(self, &mut TBinaryProtocol::new((), false)),
+            WP::Binary => Message::size(self, &mut TBinaryProtocol::new((), false)),
+            // the unchecked writer's own length protocol (what a caller sizes its buffer with)
+            WP::Unchecked => {
+                let mut b = BytesMut::new();
+                let s: &'static mut [u8] = &mut [];
+                Message::size(self, &mut unsafe { TBinaryUnsafeOutputProtocol::new(&mut b, s, false) })
+            }
             WP::BinaryLe => Message::size(self, &mut TBinaryLeProtocol::new((), false)),
             WP::Compact => Message::size(self, &mut TCompactOutputProtocol::new((), false)),
         }
